@@ -1,22 +1,43 @@
-"""More mutants (per property), same format as tools/mutants.py."""
+"""More mutants (per property), same format as tools/mutants.py: (name, [checks expected to flag], file, old, new)."""
 D = "probdiffeq/_probdiffeq/ssm_impl_dense.py"
 I = "probdiffeq/_probdiffeq/ssm_impl_isotropic.py"
 B = "probdiffeq/_probdiffeq/ssm_impl_blockdiag.py"
 S = "probdiffeq/_probdiffeq/solvers.py"
 E = "probdiffeq/_probdiffeq/estimators_and_losses.py"
 U = "probdiffeq/_probdiffeq/utilities.py"
-CH = "probdiffeq/util/cholesky_util.py"
+A = "probdiffeq/_ivpsolve/solvers_via_adaptive_steps.py"
+F = "probdiffeq/_ivpsolve/solvers_via_fixed_steps.py"
+J = "probdiffeq/_probdiffeq/jacobians.py"
+T = "probdiffeq/_probdiffeq/taylor_points.py"
+Z = "probdiffeq/_ivpsolve/stepsize_initialisers.py"
 
 MUTANTS = [
     # ---- C02
-    ("dense_noise_no_sqrt_dt", ["C02"], D, "self.q0, np.sqrt(np.abs(dt)) * output_scale * self.Q, self.tree_flatten", "self.q0, np.abs(dt) * output_scale * self.Q, self.tree_flatten"),
+    ("dense_noise_no_sqrt_dt", ["C02", "C09"], D, "self.q0, np.sqrt(np.abs(dt)) * output_scale * self.Q, self.tree_flatten", "self.q0, np.abs(dt) * output_scale * self.Q, self.tree_flatten"),
     ("dense_ts1_offset_dropped", ["C02"], D, "        fx = fx - J @ xi\n", "        fx = fx\n"),
     ("dense_damp_as_variance", ["C02"], D, "std = tree.tree_map(lambda x: np.ones_like(x) * damp, mean)", "std = tree.tree_map(lambda x: np.ones_like(x) * np.sqrt(damp), mean)"),
-    ("precon_power_off_by_one", ["C02"], U, "scaling_vector = np.power(dt, powers) / scales", "scaling_vector = np.power(dt, powers + 1) / scales"),
-    ("dense_revert_gain_sign", ["C02"], D, "mean_corrected = mean - gain @ mean_observed", "mean_corrected = mean + gain @ mean_observed"),
-    ("iso_marginalise_no_noise", ["C02"], I, None, None),
+    ("precon_power_off_by_one", ["C02", "C09"], U, "scaling_vector = np.power(dt, powers) / scales", "scaling_vector = np.power(dt, powers + 1) / scales"),
+    ("dense_revert_gain_sign", ["C02", "C08"], D, "mean_corrected = mean - gain @ mean_observed", "mean_corrected = mean + gain @ mean_observed"),
     ("mle_new_term_half", ["C02", "C04"], S, "x2 = np.sqrt(1 / (num_data + 1)) * new_term", "x2 = np.sqrt(1 / (num_data + 2)) * new_term"),
     ("dynamic_scale_not_used", ["C02", "C04"], S, "transition = state.prior.transition(dt=dt, output_scale=output_scale)\n        u, prediction = self.strategy.predict(\n            state.solution_full, transition=transition", "transition = state.prior.transition(dt=dt, output_scale=ones)\n        u, prediction = self.strategy.predict(\n            state.solution_full, transition=transition"),
-    ("blockdiag_rms_normalised_by_d", ["C02", "C04"], B, None, None),
+    # ---- C03 / C05
+    ("fixedgrid_smoother_shift_reintroduced", ["C03", "C01"], F, "solution0=state0, solution=result, solution1=interp_res.step_from", "solution0=state0, solution=result, solution1=s_new"),
+    ("fixedpoint_no_identity_reset", ["C03", "C05"], E, "        resume_from = MarkovSequence(\n            posterior_t1.marginal,\n            conditional=cond_identity,\n            reverse=posterior_t1.reverse,\n        )\n        interp_res = utilities.InterpResult(\n            step_from=resume_from, interp_from=resume_from\n        )\n\n        interpolated = posterior_t1", "        resume_from = posterior_t1\n        interp_res = utilities.InterpResult(\n            step_from=resume_from, interp_from=resume_from\n        )\n\n        interpolated = posterior_t1"),
+    ("filter_interp_scale_wrong_side", ["C05", "C04"], S, "        # Domain is (t0, t1]; thus, take the output scale from interp_to\n        output_scale = interp_to.output_scale", "        # Domain is (t0, t1]; thus, take the output scale from interp_to\n        output_scale = interp_from.output_scale"),
+    ("mle_num_data_twice", ["C04"], S, "auxiliary = (cstate, output_scale_running, num_data + 1)", "auxiliary = (cstate, output_scale_running, num_data + 2)"),
+    ("mle_correction_over_n", ["C04"], S, "output_scale = output_scale / np.sqrt(solution.num_steps[-1])", "output_scale = output_scale / solution.num_steps[-1]"),
+    # ---- C07
+    ("error_power_rate_plus_one", ["C07"], S, "        error_power = error_norm ** (-1.0 / error_contraction_rate)\n        return error_power, state\n\n\nclass error_state_std", "        error_power = error_norm ** (-1.0 / (error_contraction_rate + 1))\n        return error_power, state\n\n\nclass error_state_std"),
+    ("error_reference_prev_only", ["C07"], S, "        reference = np.maximum(np.abs(u0), np.abs(u1))\n\n        # Turn the unscaled absolute error into a relative one.\n        # This is a generalisation", "        reference = np.abs(u0)\n\n        # Turn the unscaled absolute error into a relative one.\n        # This is a generalisation"),
+    # ---- C12 / C13
+    ("lml_average_off_by_one", ["C12"], E, "logpdf1 = (logpdf * num_data + logpdf_n) / (num_data + 1)", "logpdf1 = (logpdf * num_data + logpdf_n) / (num_data + 2)"),
+    ("sample_key_not_split", ["C13"], E, "            key, subkey = random.split(key, num=2)\n            smp_flat = predicted.sample_flat(subkey)", "            subkey = key\n            smp_flat = predicted.sample_flat(subkey)"),
+    # ---- C14 / C15
+    ("blockdiag_rms_normalised_by_d", ["C14", "C04"], B, None, None),
+    ("branch_where_guard_removed", [], A, "branch_idx = np.where(is_before_t1, 0, np.where(is_after_t1, 1, 2))", "branch_idx = np.where(is_after_t1, 1, np.where(is_before_t1, 0, 2))"),
+    # ---- C17 / C18 / C19
+    ("jac_diag_transposed", ["C17"], J, "        dfx_diagonal = linalg.einsum(\"mdnd->dmn\", dfx)", "        dfx_diagonal = linalg.einsum(\"mdnd->dnm\", dfx)"),
+    ("hnw_h1_exponent", ["C18"], Z, "(0.01 / np.maximum(d1, d2)) ** (1.0 / (error_contraction_rate + 1.0)),", "(0.01 / np.maximum(d1, d2)) ** (1.0 / error_contraction_rate),"),
+    ("gn_iters_off_by_one", ["C19"], T, '            "iters": final.i,', '            "iters": final.i + 1,'),
 ]
 MUTANTS = [m for m in MUTANTS if m[3] is not None]
